@@ -5,6 +5,7 @@ Line protocol (tokens after the property id):
 
   path <rep> <hop>*         -> results of every hop, separated by " > " (stops at the first error)
   pathd <rep> <dhop> <hop>* -> same, followed by " || " and the result of the single hop <dhop> on <rep>
+  hist <rep> <hop> <rep> <hop> …  -> the single-hop results, separated by " ; "
   pred <rep N>              -> "isn=<T|F> acn=<T,F,..>"
   chk <rep|O> <uni> <minInst> <minCols> <toNumpy> <toPandas>   -> rep or error
 
@@ -199,6 +200,16 @@ def runPath (labels : Option (List Int)) : List (Hop Name) → Rep Name V → Li
     | .error e => [showErr e]
     | .ok r' => showRep r' :: runPathFrom hs r'
 
+/-- `hist <rep> <hop> <rep> <hop> …`: a call history; the converters are pure functions of their arguments, so every call
+gives what it gives on its own -/
+def histLoop : List String → List String → String
+  | [], acc => showList " ; " acc.reverse
+  | [_], _ => "bad-op"
+  | rep :: hop :: rest, acc =>
+    match parseRep? (stripLabels rep), parseLabels? rep, parseHop? hop with
+    | some r, some ls, some h => histLoop rest (showList " > " (runPath ls [h] r) :: acc)
+    | _, _, _ => "bad-op"
+
 def showBoolList (l : List Bool) : String := showList "," (l.map showBool)
 
 def handle (toks : List String) : String :=
@@ -212,6 +223,7 @@ def handle (toks : List String) : String :=
     | some r, some ls, some d, some hs =>
       showList " > " (runPath ls hs r) ++ " || " ++ showList " > " (runPath ls [d] r)
     | _, _, _, _ => "bad-op"
+  | "hist" :: rest => histLoop rest []
   | ["pred", rep] =>
     match parseRep? rep with
     | some (.nested N) => s!"isn={showBool (isNestedDataframe N)} acn={showBoolList (areColumnsNested N)}"
